@@ -12,6 +12,7 @@ import (
 	"go/ast"
 	"go/parser"
 	"go/token"
+	"gopkg.in/yaml.v3"
 	"os"
 	"path/filepath"
 	"regexp"
@@ -759,6 +760,20 @@ func (x *runner) violate(j *Job, o outcome, vkind, cmd, diag string) {
 				}
 			}
 		}
+		// a generic wrapper listed twice in a type switch or lacking a response interface method: the listed root
+		// cause is two responses of ONE operation with the same nullable primitive schema; the same symptom in a
+		// document without such an operation is something else
+		if dclass == "duplicate-case/generic-wrapper" || dclass == "not-implementing-interface/generic-wrapper" {
+			text := []byte(j.Text)
+			if j.Path != "" {
+				text, _ = os.ReadFile(j.Path)
+			}
+			if sameNullablePrimitiveTwiceInOneOperation(text) {
+				dclass += "/two-responses-of-one-operation"
+			} else {
+				dclass += "/no-operation-with-two-such-responses"
+			}
+		}
 	}
 	sig := x.signature(j, vkind, dclass)
 	x.mu.Lock()
@@ -1158,4 +1173,84 @@ func Main(args []string) int {
 	r.Assume("a compiled test binary that exits non-zero before running any test (package initialisation) is tallied (compiled_test_binaries_failing_at_start), not alarmed: the package does compile")
 	r.Assume("a hostile-string job that fails exactly like the benign base document under the same feature set is reported under the document's signature; a multi-place violation that one of its places causes alone is reported under that place's signature only")
 	return r.Finish("generate+build jobs: corpus documents x feature sets (pairwise covering array over gen.AllFeatures, all-on, all-off, client/server/webhooks-only, defaults; all 2^11 subsets on three small documents in thorough), a base document with one hostile string at one of the places where document text becomes Go text (and PRNG multi-place combinations), PRNG documents over the feature grammar. Generation success must imply go build and go test -run '^$' success; WriteSource must not fail with ErrGoFormat/template errors; rejections must carry a diagnostic. distinct = (document hash, feature set)", r.N(200, 2500), false)
+}
+
+// sameNullablePrimitiveTwiceInOneOperation: does some operation of the document have two responses (or two media
+// types of its responses) whose schema is the same nullable primitive (type, format)? Local references to component
+// schemas and responses are followed.
+func sameNullablePrimitiveTwiceInOneOperation(doc []byte) bool {
+	var root map[string]any
+	if err := yaml.Unmarshal(doc, &root); err != nil {
+		return false
+	}
+	deref := func(v any) map[string]any {
+		for i := 0; i < 8; i++ {
+			m, _ := v.(map[string]any)
+			if m == nil {
+				return nil
+			}
+			ref, _ := m["$ref"].(string)
+			if !strings.HasPrefix(ref, "#/") {
+				return m
+			}
+			var cur any = root
+			for _, tok := range strings.Split(ref[2:], "/") {
+				tok = strings.ReplaceAll(strings.ReplaceAll(tok, "~1", "/"), "~0", "~")
+				cm, _ := cur.(map[string]any)
+				if cm == nil {
+					return nil
+				}
+				cur = cm[tok]
+			}
+			v = cur
+		}
+		return nil
+	}
+	paths, _ := root["paths"].(map[string]any)
+	items := []any{}
+	for _, it := range paths {
+		items = append(items, it)
+	}
+	if wh, _ := root["webhooks"].(map[string]any); wh != nil {
+		for _, it := range wh {
+			items = append(items, it)
+		}
+	}
+	for _, it := range items {
+		item := deref(it)
+		for _, m := range []string{"get", "put", "post", "delete", "options", "head", "patch", "trace"} {
+			op, _ := item[m].(map[string]any)
+			if op == nil {
+				continue
+			}
+			seen := map[string]int{}
+			resps, _ := op["responses"].(map[string]any)
+			for _, rv := range resps {
+				resp := deref(rv)
+				content, _ := resp["content"].(map[string]any)
+				for _, mv := range content {
+					media, _ := mv.(map[string]any)
+					sch := deref(media["schema"])
+					if sch == nil {
+						continue
+					}
+					if n, _ := sch["nullable"].(bool); !n {
+						continue
+					}
+					t, _ := sch["type"].(string)
+					switch t {
+					case "string", "integer", "number", "boolean":
+						f, _ := sch["format"].(string)
+						seen[t+"|"+f]++
+					}
+				}
+			}
+			for _, n := range seen {
+				if n >= 2 {
+					return true
+				}
+			}
+		}
+	}
+	return false
 }
